@@ -49,6 +49,18 @@ CHECKS = {
  "C20": ("exploration", "runtime monitor: offline checker over recorded clone/append histories against a list model (live and snapshot views admitted)",
          "Random histories over a tree of cloned Statement handles with capacity-aware appends; after every step every handle is rendered (Render and inside a File) and tokenised.",
          TB, "5 C20"),
+ "C01": ("exploration", "runtime monitor: per-program round trip — go/ast transcribed into DSL calls, rendered by the real code, re-parsed, normalised AST compared with the source AST declaration by declaration",
+         "Every file of the vendored corpus, /repo, GOROOT/src (sample in quick, all in thorough), go1.26 src and the module cache (thorough, two translator seeds, ~100k files / ~2M declarations) plus generated programs; choice among equivalent documented spellings is randomised. Sampled over programs, nothing is proved.",
+         TB + " Normalisations limited to comments, layout, redundant parentheses, empty statements and Dict's documented reordering.", "5 C01"),
+ "C14": ("exploration", "runtime monitor: byte equality of renders across forms enumerated from the API at check time (apigen + reflection), instrumented callbacks (count, phase flag, goroutine id)",
+         "All ~120 constructors x 150/4,000 generated argument lists: function / Statement method (empty and non-empty receiver) / Group method (appended and returned) / ...Func variant; GoString vs Render vs RenderWithFile(fresh File); callbacks exactly once, inside the constructing call, never at render; corpus programs with a random form per node.",
+         TB + " Documented contract panics (Lit of unsupported type, Values(Dict, other)) are never generated.", "5 C14"),
+ "C15": ("exploration", "runtime monitor: go/scanner code-token stream with vs without injected comments, comment tokens of the raw rendering, ast.File.Doc / comment groups / package-clause line for file-level comments",
+         "Comment injection at every between-items and end-of-item position of Block/Defs/Struct/Interface/case bodies/File of real and generated programs (22 text shapes); file-level scenarios: headers x package comments (incl. empty entries) x canonical paths.",
+         TB + " Text containment is judged on the NoFormat rendering (gofmt rewrites doc comments itself).", "5 C15"),
+ "C18": ("exploration", "runtime monitor: import spec and qualifier of rendered files vs. the package clause parsed from GOROOT/src/<path>; the gennames tool of the tree is run and its table checked the same way",
+         "Every importable std package directory (297 on this toolchain) alone and with prefix, every ordered pair/group sharing a declared name or last path element, all at once in two orders; gennames run offline, every table entry checked, and the cases repeated with ImportNames(table). Enumerated completely in both tiers.",
+         TB + " GOROOT/src of the installed toolchain is the ground truth.", "5 C18"),
 }
 
 NOT_YET = {}
